@@ -268,6 +268,22 @@ fn gen_c15(seed: u64, idx: usize, _tier: Tier) -> C15Scenario {
         1 => spec.default_ports = 2,
         _ => {}
     }
+    // one listener in six has a target filter value that names no configured target (a completed spelling `app/`,
+    // `./app`, a typo, a target of another checkout): the listener then simply has less to show; the run must not care
+    let mut listener = listener;
+    if let Some(l) = listener.as_mut() {
+        let mut frng = Rng::new(script.sched_seed ^ 0xF117E4);
+        if frng.chance(1, 6) {
+            let t0 = spec.targets[frng.below(spec.targets.len())].path.clone();
+            let v = match frng.below(4) {
+                0 => format!("{}/", t0),
+                1 => format!("./{}", t0),
+                2 => "no/such/target".to_string(),
+                _ => format!("{}x", t0),
+            };
+            l.targets.push(v);
+        }
+    }
     C15Scenario { run: RunScenario { spec, mode, script, hang_ms: default_hang_ms() }, listener }
 }
 
